@@ -259,23 +259,24 @@ def config_restore_rule(chk, src, rule):
 
 
 # ------------------------------------------------------------------------------------------ step doubling (abstract run of the adaptive wrapper)
-def step_doubling_rule(chk, src, rule):
+def step_doubling_rule(chk, src, rule, rule_kind=None):
     from ..syminterp import SymInterp, Sym, OpenSym, Blob
     deco = src.func(MPS, "adaptive_tdvp")
     for script_name, script in (("reject, then accept until done", [1.0] + [1e-4] * 60), ("accept at once", [1e-4] * 60), ("two rejections", [1.0, 1.0] + [1e-4] * 60)):
-        calls, dists = [], []
+        calls, dists, kinds = [], [], []
         script_it = iter(script)
+        from .chain_rules import KV
 
         class St(Sym):
             def __init__(self, name, t):
                 super().__init__(name)
                 self.t = t
-                self.mp_norm = 1.0
+                self.mp_norm, self.norm = KV(1.0, "bare", kinds), KV(1.0, "full", kinds)
                 self.evolve_config = Sym("cfg", guess_dt=None)
 
             def distance(self, o):
                 dists.append((self._name, o._name))
-                return next(script_it)
+                return KV(next(script_it), "bare", kinds)
 
         def fun(state, mpo, dt):
             calls.append((state._name, dt))
@@ -322,6 +323,11 @@ def step_doubling_rule(chk, src, rule):
         chk.ob(rule, f"adaptive_tdvp [{script_name}]", not probs, deco.where, probs[:2] or f"{len(dists)} trials, accepted time {t_acc}", "step doubling from the last accepted state; rejected trials discarded; accepted steps add up to the target",
                line=deco.node.lineno, detail="adaptive TDVP: " + (probs[0] if probs else "") + " - a rejected trial that leaks into the state, a full step taken instead of the two half steps, or a wrong time "
                "bookkeeping changes the propagated time without any error")
+        if rule_kind:
+            mixed = [k_ for k_ in kinds if k_[0] != k_[1]]
+            chk.ob(rule_kind, f"adaptive_tdvp [{script_name}]: relative error", bool(kinds) and not mixed, deco.where, {"numerator / denominator": sorted(set(kinds))}, "same kind on both sides", line=deco.node.lineno,
+                   detail="the relative error that drives the adaptive step size divides a distance / norm without the scalar prefactor by one with it (or the reverse): the estimate is off by |coeff| "
+                          "and steps are accepted / rejected against a different tolerance whenever coeff != 1")
 
 # ------------------------------------------------------------------------------------------ solver sibling
 def prologue_env(fi, imag, krylov):
@@ -610,16 +616,19 @@ def run(chk):
     chk.rule("solver-sibling", "abstract runs of the tangent-space schemes with both local solvers (real and imaginary step, both sweep directions): call by call the same exponent on the same effective operator, forward / backward half (full) steps", 12)
     chk.rule("heff-network", "effective-Hamiltonian matvec == canonical network", 7)
     chk.rule("must-compress", "propagate-and-compress evolvers return compressed states", 7)
-    chk.rule("adaptive-reject", "adaptive step controllers keep the pre-step state until the trial is accepted", 2)
+    chk.rule("relative-error-homogeneous", "adaptive error estimates (recorded in the abstract runs of the TDVP wrapper and of the Taylor evolver) divide norms of the same kind, both with or both without the scalar prefactor; general Runge-Kutta evolver: ||tau sum (b - b*) k|| / ||trial||, both full norms", 8)
+    chk.rule("adaptive-reject", "adaptive Taylor evolver (abstract run in the algebra of powers of H, scripted error estimates): result = composition of the accepted sub-steps, which add up to the step; rejected trials leave no trace; the same for the embedded Runge-Kutta pairs of the general evolver (free-algebra run)", 5)
     chk.rule("rk-usage", "abstract run of the propagate-and-compress evolvers in the free algebra of time-ordered operator words: one step of the general evolver is the Runge-Kutta "
-                         "formula of every tableau, an adaptive run is the composition of its accepted sub-steps with the prescribed error estimate, RK4 and Taylor evolvers equal their formulas", 16)
+                         "formula of every tableau, an adaptive run is the composition of its accepted sub-steps with the prescribed error estimate, RK4 and Taylor evolvers equal their formulas", 12)
     # chain schemes: abstract runs with both local solvers, real and imaginary step (chain_rules.tdvp_solver_rule); tree schemes: typed dataflow to every Krylov call
     from .chain_rules import tdvp_solver_rule
     tdvp_solver_rule(chk, src, "solver-sibling", "krylov-hermitian")
     krylov_rule(chk, src, "krylov-hermitian", [TEVO])
     add_cases(chk, "heff-network", K.hop_expr_cases(src), "effective Hamiltonian")
     must_compress_rule(chk, src, "must-compress")
-    adaptive_reject_rule(chk, src, "adaptive-reject")
+    # adaptive controllers: the TDVP wrapper is decided by step-doubling, the general Runge-Kutta evolver by the adaptive runs of rk-usage, the Taylor evolver here
+    from .chain_rules import taylor_adaptive_rule
+    taylor_adaptive_rule(chk, src, "adaptive-reject", rule_kind="relative-error-homogeneous")
     chk.rule("config-restore", "temporarily modified configuration objects are saved as copies before and restored after", 1)
     config_restore_rule(chk, src, "config-restore")
     chk.rule("overlap-kernel", "transferMat (abstract run on abstract tensors) is the canonical <bra|ket> transfer step in both directions, ranks, with and without a separate bra", 8)
@@ -628,12 +637,10 @@ def run(chk):
     chk.rule("entry-gauge", "tangent-space schemes orthonormalise the state (centre at the sweep start) before building environments, for every direction flag; VMF may skip only with overlap matrices", 20)
     entry_gauge_rule(chk, src, "entry-gauge")
     chk.rule("step-doubling", "abstract run of the adaptive TDVP wrapper with scripted error estimates", 3)
-    step_doubling_rule(chk, src, "step-doubling")
-    chk.rule("relative-error-homogeneous", "adaptive error estimates divide norms of the same kind (both with or both without the scalar prefactor)", 3)
-    relative_error_rule(chk, src, "relative-error-homogeneous")
+    step_doubling_rule(chk, src, "step-doubling", rule_kind="relative-error-homogeneous")
     from .chain_rules import pc_evolver_rule
     from .C19 import tableaux_of_method_list
-    pc_evolver_rule(chk, src, "rk-usage", tableaux_of_method_list(src))
+    pc_evolver_rule(chk, src, "rk-usage", tableaux_of_method_list(src), rule_adaptive="adaptive-reject", rule_error="relative-error-homogeneous")
 
 
 META = {
